@@ -314,12 +314,29 @@ floating_point_number = (
 # Basic arithmetic operations
 plus, minus, mult, div = map(pp.Literal, "+-*/")
 
+
+def _parse_arithmetic(tokens: pp.ParseResults) -> float:
+    # tokens[0] is the flat list: operand (operator operand)*, all operators of the same precedence level
+    group = tokens[0]
+    value: float = group[0]
+    for operator, operand in zip(group[1::2], group[2::2]):
+        if operator == "*":
+            value *= operand
+        elif operator == "/":
+            value /= operand
+        elif operator == "+":
+            value += operand
+        else:
+            value -= operand
+    return value
+
+
 # Using infixNotation to manage precedence of operations
 arithmetic_expr = pp.infixNotation(
     floating_point_number,
     [
-        (mult | div, 2, pp.opAssoc.LEFT, lambda s, l, t: t[0][0] * t[0][2] if t[0][1] == "*" else t[0][0] / t[0][2]),
-        (plus | minus, 2, pp.opAssoc.LEFT, lambda s, l, t: t[0][0] + t[0][2] if t[0][1] == "+" else t[0][0] - t[0][2]),
+        (mult | div, 2, pp.opAssoc.LEFT, _parse_arithmetic),
+        (plus | minus, 2, pp.opAssoc.LEFT, _parse_arithmetic),
     ],
 )
 
